@@ -15,6 +15,7 @@ import DdnnfVerif.Proofs.LoadAll
 import DdnnfVerif.Proofs.LoadOK3
 import DdnnfVerif.Proofs.Flatten
 import DdnnfVerif.Proofs.EndToEnd
+import DdnnfVerif.Proofs.EndToEnd2
 namespace Ddnnf.C01
 
 /-- The reported count (`Ddnnf::rc()` = count of the last node) is the number of assignments to
@@ -254,5 +255,50 @@ theorem d4_end_to_end_core (lines : List D4.Line) (total : Nat)
       (l ≠ 0 ∧ l.natAbs ≤ (D4.load lines total).1 ∧
         D4.textCount lines total (A ++ [l]) = D4.textCount lines total A) :=
   D4.loaded_core_any lines total h A hA l
+
+/-! … and for the remaining request kinds (Proofs/EndToEnd2.lean instantiates the theorems of C06, C07, C08,
+C19 and C20 at the loaded array, 27 corollaries; the short ones are stated here, the long ones re-exported) -/
+
+/-- sampling answers "unsatisfiable" exactly when no model of the text contains the assumptions (C07), the
+best-configuration search likewise (C20), the k best configurations are min(k, number of models of the
+text containing A) many (C20), and a request pages through a list of exactly that many models (C06) -/
+theorem d4_end_to_end_unsat_and_sizes (lines : List D4.Line) (total : Nat)
+    (h : D4.conventions2B lines total = true) (A : List Int) (hA : InRange A (D4.load lines total).1) :
+    (∀ amount evs, sampleAlong (D4.load lines total).2.1 (D4.load lines total).1 A amount evs = some none ↔
+      D4.textCount lines total A = 0) ∧
+    (∀ vals, bestConfig (D4.load lines total).2.1 vals A = none ↔ D4.textCount lines total A = 0) ∧
+    (∀ vals k, 0 < k →
+      (topK (D4.load lines total).2.1 vals A k).length = min k (D4.textCount lines total A)) :=
+  ⟨fun amount evs => D4.loaded_sample_none_iff_unsat lines total h A hA amount evs,
+   fun vals => D4.loaded_best_none_iff_unsat lines total h vals A hA,
+   fun vals k hk => D4.loaded_topk_length lines total h vals A hA k hk⟩
+
+/-- the Tseitin export of a loaded model (at least two features) has exactly as many models over its
+declared variables as the text has models (C19), and every model of the CNF makes the text true -/
+theorem d4_end_to_end_cnf_export (lines : List D4.Line) (total : Nat)
+    (h : D4.conventions2B lines total = true) (hn : 2 ≤ (D4.load lines total).1) :
+    ((allBits ((tseitin (D4.load lines total).2.1 (D4.load lines total).1).next - 1)).filter
+        (fun b => satCnf (assignOf b) (toCnf (D4.load lines total).2.1 (D4.load lines total).1).2)).length
+      = D4.textCount lines total [] ∧
+    ∀ τ : Assignment, satCnf τ (toCnf (D4.load lines total).2.1 (D4.load lines total).1).2 = true →
+      D4.evalB τ (D4.phase1B lines total).g ((D4.phase1B lines total).g.kind.size + 1) 0 = true :=
+  ⟨D4.loaded_cnf_is_equicountable lines total h hn,
+   fun τ hτ => D4.loaded_cnf_models_project_to_models lines total h hn τ hτ⟩
+
+/-- paging over arbitrary request histories (statement: `D4.loaded_paging_history`, = `C06.paging_history`
+at the loaded array with the count condition on the text) -/
+theorem d4_end_to_end_paging : type_of% @D4.loaded_paging_history := @D4.loaded_paging_history
+
+/-- k samples, each a model containing the assumptions, whatever the random source does
+(`D4.loaded_samples_are_k_models_containing_A`) -/
+theorem d4_end_to_end_sampling : type_of% @D4.loaded_samples_are_k_models_containing_A :=
+  @D4.loaded_samples_are_k_models_containing_A
+
+/-- atomic sets of a loaded model, plain and cross mode (`D4.loaded_plain_report_is_exactly_the_classes`,
+`D4.loaded_cross_report_is_exactly_the_classes`) -/
+theorem d4_end_to_end_atomic_sets_plain : type_of% @D4.loaded_plain_report_is_exactly_the_classes :=
+  @D4.loaded_plain_report_is_exactly_the_classes
+theorem d4_end_to_end_atomic_sets_cross : type_of% @D4.loaded_cross_report_is_exactly_the_classes :=
+  @D4.loaded_cross_report_is_exactly_the_classes
 
 end Ddnnf.C01
